@@ -121,6 +121,11 @@ class SASeedsDumper(UDSScanner):
 
         return False
 
+    async def sleep_between_requests(self) -> None:
+        if self.config.sleep is not None:
+            logger.info(f"Sleeping for {self.config.sleep} seconds between seed requests…")
+            await asyncio.sleep(self.config.sleep)
+
     def log_size(self, path: Path, time_delta: float) -> None:
         size = path.stat().st_size / 1024
         size_unit = "KiB"
@@ -205,9 +210,12 @@ class SASeedsDumper(UDSScanner):
             try:
                 seed = await self.request_seed(self.config.level, self.config.data_record)
                 if seed is None:
-                    continue  # Errors are already logged in .request_seed()
+                    # Errors are already logged in .request_seed()
+                    await self.sleep_between_requests()
+                    continue
             except TimeoutError:
                 logger.error("Timeout while requesting seed")
+                await self.sleep_between_requests()
                 continue
             except Exception as e:
                 logger.critical(f"Error while requesting seed: {g_repr(e)}")
@@ -235,14 +243,13 @@ class SASeedsDumper(UDSScanner):
                         break
                 except TimeoutError:
                     logger.warning("Timeout while sending key")
+                    await self.sleep_between_requests()
                     continue
                 except Exception as e:
                     logger.critical(f"Error while sending key: {g_repr(e)}")
                     sys.exit(1)
 
-            if self.config.sleep is not None:
-                logger.info(f"Sleeping for {self.config.sleep} seconds between seed requests…")
-                await asyncio.sleep(self.config.sleep)
+            await self.sleep_between_requests()
 
         file.close()
         self.log_size(seeds_file, time.time() - start_time)
